@@ -270,7 +270,7 @@ MANIFEST_TEXT = {
         'technique': 'deterministic simulation: seeded scheduler over fibers + TSan happens-before + sequential-replay linearizability',
     },
     'C07': {
-        'text': ('Rider check, partial by construction: fault-free simulated calls of ~125 high-level functions, 58 arithmetic-layer descriptors (every function of include/bee2/math with a caller-owned stack), 21 streaming bundles and the four bake/BAUTH protocols on the simulated heap with '
+        'text': ('Rider check, partial by construction: fault-free simulated calls of ~130 high-level functions, 78 arithmetic-layer and helper descriptors (every function of include/bee2/math with a caller-owned stack, the stack-free ww/zz/codec helpers), 21 streaming bundles and the four bake/BAUTH protocols on the simulated heap with '
                  'exact-size buffers, states, stacks and blobs (H-blob), ASan + memory-related UBSan, library ASSERTs on, in the 64-bit and 32-bit word '
                  'configuration, each call repeated under different seeded heap and C-stack garbage and under the stale image of a previous computation, with identical results required.'),
         'design_ref': 'DESIGN.md §3 C07',
@@ -278,7 +278,7 @@ MANIFEST_TEXT = {
         'technique': 'deterministic simulation: exact-size simulated heap + seeded garbage / stale-image differential under sanitizers',
     },
     'C09': {
-        'text': ('Fault enumeration: for every explored call of ~125 err_t-returning high-level functions each of its N allocations is failed in turn '
+        'text': ('Fault enumeration: for every explored call of ~130 err_t-returning high-level functions each of its N allocations is failed in turn '
                  '(singly and persistently) on the simulated heap; oracle: error code, empty live set, no crash. Bad-argument variants derived from the '
                  'headers\' \\expect lines with the named error class as oracle, and no-release-on-authentication-failure checks for unwrap functions.'),
         'design_ref': 'DESIGN.md §3 C09',
